@@ -162,6 +162,7 @@ def site_stream(mmv, pkg, shapes=((0, 0), (1, 3), (2, 1), (3, 0), (3, 3), (4, 2)
             vals = [v["value"] for v in e["values"]]
             if e["type"]["name"] == "string":
                 customs = ["zz/custom.value", ""] if "" not in vals else ["zz/custom.value"]
+                customs += [x for x in dict.fromkeys([v.upper() for v in vals[:2] if isinstance(v, str)] + [v.capitalize() for v in vals[:1] if isinstance(v, str)]) if x not in vals]
             else:
                 ints = sorted(v for v in vals if isinstance(v, int))
                 customs = [c for c in {max(ints) + 1, ints[0] + ints[-1] if len(ints) > 1 else ints[0] + 7, sum(ints), 2**31 - 1} if c not in vals and 0 <= c < 2**31]
